@@ -16,6 +16,10 @@ Strategies (Hypothesis, construction not rejection)
             import_coredefs False, validate_alignment True, auto_pad drawn; ``program.expect`` says what
             the compiler must do: {"outcome": "ok"|"AlignmentError"|"InvalidMessageSize", "at": name|None};
             the closure ends at the first definition that must be rejected
+    name_cover_programs(**kw) -> Program   identifier-length cover: for every length in COVER_NAME_LENGTHS (1, 2, 31, 32, 40,
+            45, 46, 47, 48, 63) and two drawn lengths <= 63 a constant, module id, host id, struct, message and signal whose
+            names have exactly that length (kw: import_coredefs=False, lengths=..., extra_random=2); plain builder
+            build_name_cover_program(ch, **kw); name_of_length(n, used, ch) makes one such identifier
     conflict_programs(**kw)   -> Program   well-formed base + EXACTLY ONE injected conflict
             (``program.conflict`` = {"kind","placement","swap","files","names","expected":[exception class names], ...})
 Plain builders (same code, usable without Hypothesis: pass a Chooser)
@@ -40,6 +44,7 @@ Program (JSON-serialisable: to_json()/from_json(); plain data, no Hypothesis nee
     .shape  graph shape class ("single","chain","tree","diamond","dag","repeat","respell","cycle")
     .classes  set of construct-class strings used (see CLASS NAMES below)   .wellformed  bool
     .conflict / .expect / .edited / .relocated   (None unless produced by the respective function)
+    .expected_error  None, or the exception class name an intentionally ill-formed program must be rejected with
     .specs  list of FileSpec (the structured model the text is rendered from)
     .file_order  files in the order the parser reads their *bodies* (imports depth-first first)
     .defs  every definition (Def) in parser processing order     .by_name(name) -> Def
@@ -83,7 +88,22 @@ CLASS NAMES (program.classes / Def.flags)
         reuse reuse-cross-file array-literal expr-length length-1 struct-array alias-field nested-depth-<n>
         cross-file-struct-field cross-file-message-field message-in-message struct-contains-message
         alias-of-imported-struct-field explicit-padding needs-padding zero-length prefix-names big
+DEFAULT-ON classes added 2026-10-04 (plain documented syntax)
+    const-family / family-expr / family-length: constants whose names are prefixes, suffixes or infixes of one another
+        (N, N1, N10, MAX_N, N_MAX, NN, NS ...) used TOGETHER in constant expressions and in array-length expressions, shorter
+        name first and longer name first; Def.value / FieldSpec.length carry the word-bounded (correct) result
+    div-length: array lengths written with '/' whose value is an exact whole number >= 1 (``A / B`` with A % B == 0, ``A / 2``)
 OPT_IN classes (never produced unless listed in ``allow``; each is tied to a known compiler defect)
+    "long-names": ~20% of the definition names get a drawn length from COVER_NAME_LENGTHS or 1..63 (classes "long-names",
+        "name-length-<n>"/"name-length-other").  NOTE: on /repo 3e08c53 the C back end writes '#define MT_<name><value>'
+        without a separator for names of >= 48 characters (constants, MT_, MID_, HID_; see scratch/fixes/c-define-long-name.diff)
+    "fractional-length": ~70% of the programs get (add_fractional_length(program, ch, variant=None)) one extra array field
+        ``T[A / B]`` in one message, A and B fresh constants of that file; program.classes has "fractional-length" and
+        "fractional-length/below-one" (0 < x < 1, e.g. 4/8), ".../zero" (0/8) or ".../truncated" (5/2):
+        below-one and zero must be REJECTED: program.wellformed False, program.expected_error == "RTMASyntaxError",
+        program.expect == {"outcome": "RTMASyntaxError", "at": <message>}, FieldSpec.length == 0 in the model;
+        truncated is ACCEPTED by the reference compiler (int() truncates): wellformed stays True, FieldSpec.length == int(A/B),
+        program.expect == {"outcome": "ok", "at": <message>}
     "alias-of-imported-struct" (F16 emission order)   "alias-of-imported-struct-field" (F15 TypeError in the parser)
     "struct-contains-message" (F16)   "string-special" (F22)   "prefix-names" (F20)
     "zero-length" is still accepted in ``allow`` but generates nothing any more: since the repository's fix for F21
